@@ -34,6 +34,9 @@ func capFor(r *hlib.Rand, b []byte) int {
 
 func gen(r *hlib.Rand, n int, tier, profile string, emit func(string, ...any)) {
 	emit("maxsize")
+	for _, b := range pktlib.FragBits() {
+		emit("reject 2048 %s", hlib.Hex(b))
+	}
 	for i := 0; i < n; i++ {
 		switch r.Intn(16) {
 		case 0:
